@@ -44,6 +44,50 @@ def observe_line(cid, line):
     return rec
 
 
+def observe_section(cid, lines, sync_extra=(), events_extra=()):
+    """A whole instrument section through the real pipeline (Chart.from_file); the same lines may also be
+    dropped into the [SyncTrack] / [Events] sections of the chart, where they are foreign (unparsable)."""
+    from chartgen import chart_text, outcome
+    rec = {"id": cid, "props": ["C07"], "kind": "sec", "lines": [cps(x) for x in lines], "text": lines, "raised": "",
+           "got": {"N": [], "S": [], "E": []}, "foreign": [list(sync_extra), list(events_extra)]}
+    text = chart_text(res=192, sync=["0 = TS 4", "0 = B 120000"] + list(sync_extra), events=list(events_extra),
+                      tracks={"ExpertSingle": lines})
+    kind, val = outcome(text)
+    if kind == "raise":
+        rec["raised"] = type(val).__name__
+        return rec
+    tr = [t for _, dd in val.instrument_tracks.items() for _, t in dd.items()][0]
+
+    def digits(n):
+        return [int(c) for c in str(int(n))]
+    for e in tr.note_events:
+        lanes = [j for j in range(5) if e.note.value[j]]
+        idx = lanes[0] if lanes else 7
+        sus = e.sustain if isinstance(e.sustain, int) else max(x for x in e.sustain if x is not None)
+        rec["got"]["N"].append([digits(e.tick), idx, digits(sus)])
+    rec["got"]["S"] = [[digits(e.tick), digits(e.sustain)] for e in tr.star_power_events]
+    rec["got"]["E"] = [[digits(e.tick), cps(e.value)] for e in tr.track_events]
+    return rec
+
+
+def canonical_section(r, n):
+    """n canonical lines with strictly increasing ticks; N lines use lane / open indices only (one note per tick)."""
+    out, tick = [], r.choice([0, 0, 7])
+    for _ in range(n):
+        kind = r.choice("NNNSE")
+        pad = r.choice(["", "", " ", "\t"])
+        tstr = r.choice(["", "0", "00"]) + str(tick)
+        ln = str(r.choice([0, 0, 1, 96, 12345, 10**7]))
+        if kind == "N":
+            out.append(f"{tstr} = N {r.choice([0, 1, 2, 3, 4, 7])} {ln}{pad}")
+        elif kind == "S":
+            out.append(f"{tstr} = S 2 {ln}{pad}")
+        else:
+            out.append(f"{tstr} = E " + r.choice(["solo", "soloend", "x=y", "é♪", "[a]", "a\"b"]) + pad)
+        tick += r.choice([1, 2, 50, 192, 1000])
+    return out
+
+
 def canonical_lines(r, n):
     out = []
     for _ in range(n):
@@ -111,6 +155,16 @@ def run(ctx):
         k += 1
         ctx.evaluations += 1
         ctx.distinct(ln)
+    # the pipeline: whole canonical sections through Chart.from_file, in the order of one long history of the
+    # process, with the section's own lines also placed (as foreign lines) in the sync / events sections
+    for j in range(ctx.pick(250, 5000)):
+        sec = canonical_section(r, r.choice([1, 3, 8, 20]))
+        mode = r.random()
+        sx = r.sample(sec, min(len(sec), r.randrange(0, 4))) if mode < 0.4 else []
+        ex = r.sample(sec, min(len(sec), r.randrange(0, 4))) if 0.2 < mode < 0.6 else []
+        recs.append(observe_section(f"p{j}", sec, ["  " + x for x in sx] if mode < 0.2 else sx, ex))
+        ctx.evaluations += 1
+        ctx.distinct(["sec", sec, sx, ex])
     ctx.sample({"origin": "canonical line", "line": lines[0], "record": {k: v for k, v in recs[-1].items() if k in ("acc", "n", "s", "e")}})
     by_id = {x["id"]: x for x in recs}
     rej = ctx.validate(recs)
@@ -120,6 +174,8 @@ def run(ctx):
         rec = by_id[rid]
         if rec["kind"] == "line":
             ctx.violation(clause, {"kind": "line", "line": rec["text"], "codepoints": rec["line"], "acc": rec["acc"]}, key=clause)
+        elif rec["kind"] == "sec":
+            ctx.violation(clause, {"kind": "sec", "lines": rec["text"], "foreign": rec["foreign"], "got": rec["got"], "raised": rec["raised"]}, key=clause)
     ctx.exhaustive = True
     ctx.assumptions += [
         "language inclusion / disjointness is decided for strings of every length over a representative character pool (printable ASCII that matters, "
@@ -130,6 +186,11 @@ def run(ctx):
 
 
 def replay(ctx, obj):
+    if obj.get("kind") == "sec":
+        rec = observe_section("replay", obj["lines"], obj["foreign"][0], obj["foreign"][1])
+        for rid, p, clause in ctx.validate([rec]):
+            ctx.violation(clause, dict(obj, got=rec["got"], raised=rec["raised"]))
+        return
     rec = observe_line("replay", obj["line"])
     for rid, p, clause in ctx.validate([rec]):
         ctx.violation(clause, {"kind": "line", "line": obj["line"], "acc": rec["acc"]})
